@@ -143,6 +143,31 @@ def numMutationsUnique (rows : CRows) (L : Int) (alphabet : Nat) : Option (List 
       if col.count ch == 1 && ch != all && ch != GAP then incrAt acc (lastRowOf ch col 0 0) else acc) acc)
     (rows.map fun _ => 0))
 
+/-! ### count profile (`align/profile.go`) -/
+
+/-- one `p.counts[idx][i]++` of `NewCountProfileFromAlignment` (with the creation of the row of `L` zeros when
+the character is new): the profile is the association list `character ↦ counts per site`, in `header` order
+(first appearance) -/
+def profStep (L : Nat) (acc : List (Byte × List Nat)) (x : Nat × Byte) : List (Byte × List Nat) :=
+  if acc.any (·.1 == x.2) then acc.map fun q => if q.1 == x.2 then (q.1, incrAt q.2 x.1) else q
+  else acc ++ [(x.2, incrAt (List.replicate L 0) x.1)]
+
+/-- the (site, character) pairs in the order the constructor visits them: row after row, left to right -/
+def profItems (rows : CRows) : List (Nat × Byte) := rows.flatMap fun r => r.2.zipIdx.map fun p => (p.2, p.1)
+
+/-- `NewCountProfileFromAlignment(al)`; `none` = index panic: `names` has 130 entries -/
+def countProfile (rows : CRows) (L : Int) : Option (List (Byte × List Nat)) :=
+  if rows.any (fun r => r.2.any fun c => c ≥ 130) then none
+  else some ((profItems rows).foldl (profStep L.toNat) [])
+
+/-- `p.Count(r, site)`: outer `none` = index panic (`r ≥ 130`), inner `none` = error (unknown character, site
+outside the profile) -/
+def profileCount (prof : List (Byte × List Nat)) (r : Byte) (site : Int) : Option (Option Nat) :=
+  if r ≥ 130 then none else
+  match lookup r prof with
+  | none => some none
+  | some cs => if site < 0 || site ≥ cs.length then some none else some (some (cs.getD site.toNat 0))
+
 /-- `Nt2IndexIUPAC` -/
 def nt2IndexIUPAC (c : Byte) : Option Byte := lookup (toUpper c) Gen.iupacToInt
 
